@@ -340,15 +340,16 @@ def shrink(sc, binary, case, codes):
     return cur
 
 
-def matchers_for(case):
-    """ids describing the class of a minimised failing input (for known_findings.txt)"""
-    ids = []
+def input_class(case):
+    """coarse class of a failing input, only used to report one replay per class"""
     lats = [op.get("lat", 0) for op in case["ops"] if op["k"] in ("sample", "silent")]
     big = bool(case["offs"]) and max(case["offs"]) + max(lats + [0]) >= HOUR
-    if big:
-        ids.append("sorting-latency-ge-1h")
-    ids.append("ops-" + "-".join(sorted(set(op["k"] for op in case["ops"]))))
-    return ids
+    return ("latency-at-or-above-1h",) if big else ()
+
+
+def matchers_for(case):
+    """ids describing a minimised failing input (for known_findings.txt); nothing is expected to fail"""
+    return ["ops-" + "-".join(sorted(set(op["k"] for op in case["ops"])))]
 
 
 def main(argv):
@@ -424,10 +425,10 @@ def main(argv):
         spec_fail = sorted(i for i, e in all_err.items() if has(e, SPEC_CODES))
         model_fail = sorted(i for i, e in all_err.items() if has(e, MODEL_CODES))
         thm_fail = sorted(i for i, e in all_err.items() if has(e, THM_CODES))
-        # one report per class of failing input; classes not matching the >= 1 h latency corner come first
+        # one report per class of failing input
         classes = {}
         for i in spec_fail:
-            classes.setdefault(tuple(matchers_for(cases[i])[:-1]), []).append(i)
+            classes.setdefault(input_class(cases[i]), []).append(i)
         n_reported = 0
         for cls in sorted(classes, key=lambda k: (len(k), k)):
             if n_reported >= 2:
